@@ -39,7 +39,7 @@ this property, while
   (a) everything still compiles (`go build ./...` and `go vet` of the touched packages, also with `-tags verif`), and
   (b) the EXISTING tests of the touched packages and of the packages that directly use them still pass
       (run `go test -count=1` on them; some tests fail offline on the unchanged tree already — compare with the
-      unchanged tree (git stash) before blaming your change), and
+      unchanged tree before blaming your change — save your change with `git diff > /tmp/<yourid>.diff`, `git checkout -- .`, run, then `git apply` it back; NEVER use `git stash`: the stash is shared by all worktrees of the repository and other agents work in theirs at the same time), and
   (c) the breakage needs something SPECIFIC to manifest: a particular interleaving, a crash or fault at a particular
       point, a multi-step sequence of operations, an unusual input or configuration, or two cooperating sites that each
       look fine alone. NOT something that ordinary use would expose at once.
